@@ -51,7 +51,7 @@ type qparam struct {
 }
 
 type reqCase struct {
-	creds  bool
+	creds  int // 0: no credentials configured; 1: two pairs; 2: one pair
 	auth   string
 	pf     bool
 	method string
@@ -113,7 +113,7 @@ func (c reqCase) inputTokens(withAttrs bool) string {
 		body = "pj." + segAttrs(body[3:])
 	}
 	return fmt.Sprintf("req cr=%s au=%s pf=%s m=%s p=%s sl=%s q=%s md=%s b=%s rpc=%s",
-		b01(c.creds), c.auth, b01(c.pf), c.method, p, b01(c.slash), qs, md, body, c.rpc)
+		credsTok(c.creds), c.auth, b01(c.pf), c.method, p, b01(c.slash), qs, md, body, c.rpc)
 }
 
 func parseReqCase(f []string) (reqCase, error) {
@@ -126,7 +126,7 @@ func parseReqCase(f []string) (reqCase, error) {
 		}
 		kv[t[:i]] = t[i+1:]
 	}
-	c.creds = kv["cr"] == "1"
+	c.creds = credsOfTok(kv["cr"])
 	c.auth = kv["au"]
 	c.pf = kv["pf"] == "1"
 	c.method = kv["m"]
@@ -353,27 +353,85 @@ func (c reqCase) rawBody() (io.Reader, bool) {
 	return strings.NewReader(c.body), true
 }
 
-func (c reqCase) setAuth(r *http.Request) {
-	switch c.auth {
+// The credential vocabulary: tokens for the texts that appear as user names and passwords.
+//
+//	u0 u1   the configured users        p0 p1   their passwords (p1 contains a colon)
+//	nobody  a user that is not configured, wrong / any: passwords nobody has, e: the empty string
+//
+// A token names the same text wherever it stands (p0 as a user name is the text of the first password).
+var authTexts = map[string]string{"u0": user0, "u1": user1, "p0": pass0, "p1": pass1, "nobody": "nobody", "wrong": "wrong", "any": "whatever", "e": ""}
+
+// credential configurations: 0 none, 1 two users, 2 one user
+func credsTok(k int) string {
+	switch k {
+	case 1:
+		return "u0:p0,u1:p1"
+	case 2:
+		return "u0:p0"
+	}
+	return "-"
+}
+func credsOfTok(t string) int {
+	switch t {
+	case "u0:p0,u1:p1", "1":
+		return 1
+	case "u0:p0":
+		return 2
+	}
+	return 0
+}
+func credsMap(k int) map[string]string {
+	switch k {
+	case 1:
+		return map[string]string{user0: pass0, user1: pass1}
+	case 2:
+		return map[string]string{user0: pass0}
+	}
+	return nil
+}
+
+// setAuthHeader: n none | m0 not base64 | m1 another scheme | m2 no colon | b.<user>.<pass> Basic |
+// l.<user>.<pass> Basic with the scheme in lower case (net/http accepts it)
+func setAuthHeader(r *http.Request, tok string) {
+	switch tok {
+	case "n", "":
+		return
 	case "m0":
 		r.Header.Set("Authorization", "Basic !!!not-base64!!!")
+		return
 	case "m1":
-		r.Header.Set("Authorization", "Bearer "+user0+":"+pass0)
+		r.Header.Set("Authorization", "Bearer "+base64.StdEncoding.EncodeToString([]byte(user0+":"+pass0)))
+		return
 	case "m2":
 		r.Header.Set("Authorization", "Basic "+base64.StdEncoding.EncodeToString([]byte(user0+pass0))) // no colon
-	case "r2":
-		r.Header.Set("Authorization", "basic "+base64.StdEncoding.EncodeToString([]byte(user0+":"+pass0))) // scheme is case-insensitive
-	case "w0":
-		r.SetBasicAuth(user0, "wrong")
-	case "w1":
-		r.SetBasicAuth("nobody", pass0)
-	case "w2":
-		r.SetBasicAuth(user0, pass1)
-	case "r0":
-		r.SetBasicAuth(user0, pass0)
-	case "r1":
-		r.SetBasicAuth(user1, pass1)
+		return
 	}
+	f := strings.SplitN(tok, ".", 3)
+	if len(f) != 3 {
+		panic("bad auth token " + tok)
+	}
+	u, okU := authTexts[f[1]]
+	p, okP := authTexts[f[2]]
+	if !okU || !okP {
+		panic("bad auth token " + tok)
+	}
+	scheme := "Basic "
+	if f[0] == "l" {
+		scheme = "basic "
+	}
+	r.Header.Set("Authorization", scheme+base64.StdEncoding.EncodeToString([]byte(u+":"+p)))
+}
+
+func (c reqCase) setAuth(r *http.Request) { setAuthHeader(r, c.auth) }
+
+// the full grid of credential situations for a configuration with credentials
+var authGrid = []string{
+	"n", "m0", "m1", "m2",
+	"b.u0.p0", "b.u0.wrong", "b.u0.e", "b.u0.p1", "b.u1.p1", "b.u1.p0", "b.u1.e",
+	"b.nobody.p0", "b.nobody.any", "b.nobody.e",
+	"b.e.e", "b.e.p0",
+	"b.p0.p0", "b.p0.u0", "b.p0.e",
+	"l.u0.p0", "l.nobody.e",
 }
 
 // ---- the servers ----
@@ -384,14 +442,12 @@ type server struct {
 	rec  *recorder
 }
 
-func newServer(creds bool) *server {
+func newServer(creds int) *server {
 	cfg := &rest.Config{}
 	cfg.Default()
 	laddr, _ := ma.NewMultiaddr("/ip4/127.0.0.1/tcp/0")
 	cfg.HTTPListenAddr = []ma.Multiaddr{laddr}
-	if creds {
-		cfg.BasicAuthCredentials = map[string]string{user0: pass0, user1: pass1}
-	}
+	cfg.BasicAuthCredentials = credsMap(creds)
 	a, err := rest.NewAPI(context.Background(), cfg)
 	if err != nil {
 		panic(err)
@@ -417,9 +473,11 @@ func newServer(creds bool) *server {
 }
 
 type harness struct {
-	open, auth *server
-	hc         *http.Client
+	srv [3]*server // by credential configuration
+	hc  *http.Client
 }
+
+func (h *harness) server(creds int) *server { return h.srv[creds] }
 
 // panicLog counts "http: panic serving" lines written by net/http's default error log: a handler
 // that panics makes the server drop the connection, which the client sees as a transport error.
@@ -448,8 +506,7 @@ func init() { log.SetOutput(panics) }
 
 func newHarness() *harness {
 	return &harness{
-		open: newServer(false),
-		auth: newServer(true),
+		srv: [3]*server{newServer(0), newServer(1), newServer(2)},
 		hc: &http.Client{
 			Timeout:       20 * time.Second,
 			CheckRedirect: func(*http.Request, []*http.Request) error { return http.ErrUseLastResponse },
@@ -484,10 +541,7 @@ func opsTok(ops []string) string {
 // exec sends the request and returns the output tokens, or an error when the
 // infrastructure (not the API) failed.
 func (h *harness) exec(c reqCase) (string, error) {
-	s := h.open
-	if c.creds {
-		s = h.auth
-	}
+	s := h.server(c.creds)
 	u := "http://" + s.addr + c.rawPath()
 	if q := c.rawQuery(); q != "" {
 		u += "?" + q
@@ -788,17 +842,27 @@ func maskText(m int) string {
 	return strings.Join(l, ",")
 }
 
-func authFor(r *common.Rng, creds bool) string {
-	if !creds {
-		return []string{"n", "n", "n", "r0", "w0", "m0"}[r.Intn(6)]
+func authFor(r *common.Rng, creds int) string {
+	if creds == 0 {
+		return []string{"n", "n", "n", "b.u0.p0", "b.u0.wrong", "m0", "b.nobody.e"}[r.Intn(7)]
 	}
-	return []string{"n", "m0", "m1", "m2", "w0", "w1", "w2", "r0", "r0", "r0", "r1", "r1", "r2"}[r.Intn(13)]
+	if r.Chance(2, 5) {
+		return []string{"b.u0.p0", "b.u0.p0", "b.u1.p1", "l.u0.p0"}[r.Intn(4)] // right for configuration 1
+	}
+	return authGrid[r.Intn(len(authGrid))]
+}
+
+func credsFor(r *common.Rng, num, den int) int {
+	if !r.Chance(num, den) {
+		return 0
+	}
+	return 1 + r.Intn(2)
 }
 
 // genReq draws one random request.
 func genReq(r *common.Rng) reqCase {
 	c := reqCase{rpc: "ok", body: "-"}
-	c.creds = r.Chance(1, 3)
+	c.creds = credsFor(r, 1, 3)
 	c.auth = authFor(r, c.creds)
 	c.rpc = []string{"ok", "ok", "ok", "err", "nf"}[r.Intn(5)]
 	if r.Chance(1, 12) {
@@ -940,10 +1004,21 @@ func genReq(r *common.Rng) reqCase {
 func sysCases() []reqCase {
 	var out []reqCase
 	r := common.NewRng(7)
-	auths := []struct {
-		cr bool
+	type sit struct {
+		cr int
 		au string
-	}{{false, "n"}, {false, "w0"}, {true, "n"}, {true, "m0"}, {true, "m1"}, {true, "w0"}, {true, "w1"}, {true, "w2"}, {true, "r0"}, {true, "r1"}, {true, "m2"}, {true, "r2"}}
+	}
+	// index 0..3 are used by the thinner sweeps below: no credentials configured (with and without a header),
+	// configured without a header, configured with the right pair
+	auths := []sit{{0, "n"}, {0, "b.u0.wrong"}, {1, "n"}, {1, "b.u0.p0"}, {0, "b.nobody.e"}}
+	for _, a := range authGrid {
+		if a != "n" && a != "b.u0.p0" {
+			auths = append(auths, sit{1, a})
+		}
+	}
+	for _, a := range authGrid {
+		auths = append(auths, sit{2, a}) // one configured user: u1's pair is not valid here
+	}
 	for ti, t := range templates {
 		for _, m := range methods {
 			for bad := -1; bad < nvars(t); bad++ {
@@ -969,7 +1044,7 @@ func sysCases() []reqCase {
 	}
 	// preflight on every template
 	for _, t := range templates {
-		for _, a := range auths[:4] {
+		for _, a := range append(append([]sit{}, auths[:4]...), sit{1, "b.nobody.e"}, sit{1, "b.e.e"}) {
 			out = append(out, reqCase{creds: a.cr, auth: a.au, pf: true, method: "OPTIONS", segs: fill(r, t, -1), rpc: "ok", body: "-"})
 		}
 	}
@@ -977,7 +1052,8 @@ func sysCases() []reqCase {
 	for _, t := range templates {
 		s := fill(r, t, -1)
 		out = append(out, reqCase{method: t.method, auth: "n", segs: s, slash: true, rpc: "ok", body: "-"})
-		out = append(out, reqCase{creds: true, auth: "n", method: t.method, segs: s, slash: true, rpc: "ok", body: "-"})
+		out = append(out, reqCase{creds: 1, auth: "n", method: t.method, segs: s, slash: true, rpc: "ok", body: "-"})
+		out = append(out, reqCase{creds: 1, auth: "b.nobody.e", method: t.method, segs: s, slash: true, rpc: "ok", body: "-"})
 		out = append(out, reqCase{method: t.method, auth: "n", segs: append([]string{"e"}, s...), rpc: "ok", body: "-"})
 		out = append(out, reqCase{method: t.method, auth: "n", segs: append(append([]string{}, s...), "dot"), rpc: "ok", body: "-"})
 	}
@@ -1027,7 +1103,7 @@ func sysCases() []reqCase {
 				}
 			}
 			for qi, q := range qs {
-				for ai, a := range []int{0, 2, 5, 8} {
+				for ai, a := range []int{0, 2, 5, 3} {
 					if ri >= 2 && ai > 0 && qi%2 == 1 {
 						continue
 					}
